@@ -50,6 +50,11 @@ CLAIMED = {
    text='C12_suffix_lex, C12_flip_monotone, C12_num_key_order, C12_sorted_stable, C12_perm, C12_reverse_exact hold for all keys over code points above the separator, all finite doubles and all tables below 16^8 rows. The real rendered keys and the real output order are compared with the model (mergeSort of the real keys), the numeric rendering with renderNum on the bit pattern, and the real output with an independent stable sort by the specification order, incl. tables above the 10240-entry cache.',
    note='bitstring packing = IEEE-754; kvfile ordered by key bytes; int/Decimal -> double conversion is monotone but not injective above 2^53 (listed finding); the empty string is null for Table Schema and not a key',
    ref='6/C12'),
+ 'C13': dict(
+   technique='Lean 4 proof (limiter = take n incl. 0; strip removes only surrounding whitespace; de-duplicated headers are unique for every header list and format, by a 7-clause loop invariant) + hdr/wrap correspondence + independent csv.reader oracle',
+   text='C13_limit, C13_strip_only_whitespace and C13_dedup_unique hold for all tables / cells / header lists (headers that already look like generated names included). Real load() runs over generated CSV files and option combinations are compared with an independent csv.reader pass with the wrapper semantics applied, the real headers with the model of rename_duplicate_headers, the real rows with the model limiter/stripper, and package / (descriptor, iterators) sources with the selector specification.',
+   note='tabulator parsing and Schema.infer are third-party (parse faithfulness by comparison only); schema casting is shared with C14; the `while True` of the numbering is modelled with fuel (termination by distinct candidates is argued, not proved)',
+   ref='6/C13'),
  'C14': dict(
    technique='Lean 4 proof (schema_validator loop = per-policy specification, for every cast function) + validate correspondence + policy oracle on real code',
    text='For every cast function, table, number and position of bad values: drop = filter+cast, ignore/clear keep all rows, custom handlers by truthiness, raise aborts at the first bad row with its absolute index, emitted values are casts; tied to the code by the validate correspondence with the real cast_value outcomes and re-checked directly on real set_type/validate runs.',
